@@ -16,6 +16,7 @@ type Val struct {
 	Fs []*Val
 	A  *Addr  // extra info for pointers into scalar fields / elements
 	Fn *FnVal // extra info for func values
+	DoneOf string // for a channel returned by (context.Context).Done(): the context's reference
 	// for float values that are exact conversions of an integer term when IntGuard holds
 	IntSrc   string
 	IntGuard string
